@@ -964,6 +964,8 @@ SIZE_TABLE = {
                (66, [[1, 3, 5, 5, 2, 5], [3, 1, 6, 5, 5, 6], [5, 6, 1, 3, 2, 2], [5, 5, 3, 1, 6, 5], [2, 5, 2, 6, 1, 2], [5, 6, 2, 5, 2, 1]]),
                (67, [[1, 5, 5, 3, 3, 3], [5, 1, 4, 5, 2, 2], [5, 4, 1, 3, 5, 2], [3, 5, 3, 1, 5, 3], [3, 2, 5, 5, 1, 5], [3, 2, 2, 3, 5, 1]]),
                (69, [[1, 3, 2, 6, 3], [3, 1, 5, 2, 2], [2, 5, 1, 3, 5], [6, 2, 3, 1, 2], [3, 2, 5, 2, 1]]),
+               (95, [[1, 5, 5, 6, 2, 4, 3], [5, 1, 2, 3, 2, 5, 4], [5, 2, 1, 3, 5, 6, 2], [6, 3, 3, 1, 0, 3, 2], [2, 2, 5, 0, 1, 3, 5],
+                     [4, 5, 6, 3, 3, 1, 5], [3, 4, 2, 2, 5, 5, 1]]),
                (73, [[1, 5, 2, 6, 0, 5, 2], [5, 1, 5, 6, 6, 5, 0], [2, 5, 1, 5, 5, 3, 5], [6, 6, 5, 1, 5, 0, 6], [0, 6, 5, 5, 1, 5, 4],
                      [5, 5, 3, 0, 5, 1, 3], [2, 0, 5, 6, 4, 3, 1]])],
     "129+": [(137, [[1, 2, 3, 2, 5, 5, 5], [2, 1, 5, 2, 3, 5, 3], [3, 5, 1, 5, 3, 5, 2], [2, 2, 5, 1, 5, 3, 5], [5, 3, 3, 5, 1, 5, 3],
@@ -972,9 +974,12 @@ SIZE_TABLE = {
 
 
 def gen_size(rng, n):
-    per = max(1, n // 3)
-    for bracket in ("33-64", "65-128", "129+"):
-        for _ in range(per):
+    if n < 3:
+        plan = ["65-128", rng.choice(["33-64", "129+"])][:max(n, 1)]
+    else:
+        plan = ["33-64", "65-128", "129+"] * (n // 3)
+    for bracket in plan:
+        for _ in range(1):
             k, M = rng.choice(SIZE_TABLE[bracket])
             p = list(range(len(M)))
             rng.shuffle(p)
@@ -1105,18 +1110,18 @@ CLAUSES = [
                 "m = 2..12 and infinity (0/-1/-2), through the public API; whether the internal small-root table has the assumed "
                 "DihedralNb structure is recorded as supporting evidence only"),
     Clause("session_oracle", "oracle", gen_session, run_session, judge_session, site="coxeter.CoxeterGroup.automaton (sessions)",
-           budget={"quick": 150, "thorough": 1500},
+           budget={"quick": 100, "thorough": 1500},
            what="generic defences G1-G4: interleaved automaton requests (shortlex x even_length) on 2-3 groups of rank 2-3 built from "
                 "buffers, views, tuples, float/int32 arrays and one-shot diagram iterables that the caller edits afterwards; returned "
                 "automata are edited by the caller (delete_vertex, rename, clear, add_edges); every answer equals a FRESH group's"),
     Clause("naming_oracle", "oracle", gen_naming, run_naming, judge_naming, site="coxeter.CoxeterGroup.automaton / fsa.rename_generators",
-           budget={"quick": 81, "thorough": 1500},
+           budget={"quick": 63, "thorough": 1500},
            what="groups built from diagrams with every kind of generator naming (integers overlapping 0..n-1 in permuted / shifted / "
                 "reversed order, disjoint integers, tuples, multi-character strings, permuted default letters, names equal to another "
                 "generator's other case) x every automaton option, judged by the independent language reference through accepts() and "
                 "follow_word() with list words, enumerate_words (also with_states) and the even variant"),
     Clause("size_boundary_oracle", "oracle", gen_size, run_size, judge_size, site="coxeter.CoxeterGroup.automaton (many small roots)",
-           budget={"quick": 3, "thorough": 30},
+           budget={"quick": 2, "thorough": 30},
            what="size boundaries of the construction: fixed rank 5-7 groups whose number of small roots crosses 32 / 64 / 128 (33..137), "
                 "generators permuted; exhaustive comparison on every finite standard parabolic subgroup of rank 2-3 (up to one letter beyond "
                 "its longest element, e.g. length 16 in H3) and 150 random words of length up to 25 against the root criterion"),
